@@ -3,7 +3,7 @@ extractable pair + correspondence of the real code for the others and for the fl
 import os, re
 import lib, troute
 
-MODULES = ["ImathVerif.Props.C07", "ImathVerif.Props.C07GJ", "ImathVerif.Props.C07Algo"]
+MODULES = ["ImathVerif.Props.C07", "ImathVerif.Props.C07GJ", "ImathVerif.Props.C07Algo", "ImathVerif.Props.C07Link"]
 LEAF_IDX = os.path.join(troute.GEN, "index_leaf.txt")
 
 # theorems that must exist (a deleted pair theorem is a broken obligation); the files contain more
@@ -27,6 +27,11 @@ REQUIRED = {
         "Algo_checkForZeroScaleInRow2", "Algo_checkForZeroScaleInRow3", "Algo_checkForZeroScaleInRow3F_false_iff",
         "Algo_extractScaling2_pair", "Algo_extractScalingAndShear2_pair", "Algo_extractAndRemoveScalingAndShear2_pair",
         "Algo_removeScalingAndShear2_pair", "Algo_sansScalingAndShear2_pair", "Algo_extractSHRT2_pair"],
+    # C07's Gauss-Jordan parameters instantiated with C06's proved model (Model/GaussJordan.lean, n = 4): the two hypotheses
+    # of the M44 pair theorems are lemmas there, and the failure equivalence holds in BOTH directions
+    "ImathVerif.Props.C07Link": [
+        "gj_hok", "gj_herr", "gjF_eq", "gjTs_eq_zero_iff", "gj_eq_one_iff", "M44_inverseT_ok", "M44_inverseT_error", "M44_inverse_copies",
+        "M44_inverseT_error_iff", "M44_inverseT_ok_one", "M44_inverse_failure", "M44_inverse_failure_copies", "M44_inverseT_never"],
 }
 
 # the one class of input on which the real code is known (by this harness) to break the property; it is reported,
@@ -70,6 +75,8 @@ def pair_candidates(theorem):
         return [m.group(1) + ".inverse", m.group(1) + ".invert"]
     if t.startswith("M33_gj"):
         return ["M33.gjInver"]
+    if t.startswith("gj"):   # Props/C07Link.lean: lemmas about the instantiated 4x4 Gauss-Jordan pair
+        return ["M44.gjInver"]
     m = re.match(r"Frustum_([A-Za-z]+?)(Exc)?(_|$)", t)
     if m:
         f = m.group(1)
@@ -89,7 +96,10 @@ def run(chk):
                    "g++ 12 -O1 -ffp-contract=off for the correspondence harness"]
     chk.assumptions = ["Matrix44 Gauss-Jordan pair, 3-D decomposition functions, 2-D removeScaling/sansScaling, DepthToZ and ZToDepth with "
                        "non-literal integers: decided by CORRESPONDENCE of the real members on structured inputs, not by theorem",
-                       "float decisions at the guards (rounding of max*|d|): probed one ulp either side, not proved"]
+                       "float decisions at the guards (rounding of max*|d|): probed one ulp either side, not proved",
+                       "Props/C07Link: the M44 pair theorems with the Gauss-Jordan parameters instantiated by the C06 hand model "
+                       "(Model/GaussJordan.lean, proved correct in Props/C06); that model is tied to the real gjInverse members by the C06 "
+                       "check's harness (c06_inv), which is not re-run here"]
     chk.rule = ("theorems: all inputs over an ordered field, tmin/tmax/sqrt/tan/atan2 parameters. correspondence (float and double, real "
                 "code, both members of 67 pairs): zero/denormal/tiny/huge/non-finite vectors; w in {0, denormal, <1, >=1}; numerator one ulp "
                 "below/at/above max*|d| for power-of-two d; |det| around 1 and around min*|cofactor|; singular, near-singular, unimodular, "
